@@ -6,7 +6,8 @@
    convert_from_object_bitfield, as sequential mutations of a byte memory.
    A result is [mem, err, ovf]: err = "" or the exception class, ovf = a write went past the
    allocation.  `v' is the model variant: "faithful", or deliberately broken
-   "nozero" | "noplus1" | "unionall" | "nodictprepass" | "noforce-when-size-known".                                      *)
+   "nozero" | "noplus1" | "unionall" | "nodictprepass" | "noforce-when-size-known" |
+   "pair-above-10000" (the unit counter takes U+10000 for a one-unit character).                       *)
 EXTENDS NewInitIdeal
 
 R0(mem) == [mem |-> mem, err |-> "", ovf |-> FALSE]
@@ -16,10 +17,25 @@ WriteBytes(r, off, b) ==
   ELSE [mem |-> [j \in 1..Len(r.mem) |-> IF j > off /\ j <= off + Len(b) THEN b[j - off] ELSE r.mem[j]],
         err |-> "", ovf |-> r.ovf \/ off + Len(b) > Len(r.mem)]
 
+\* PyBytes_GET_SIZE / _my_PyUnicode_SizeAsChar16 (wchar_helper_3.h:101: the length plus one for every
+\* character > 0xFFFF) / _my_PyUnicode_SizeAsChar32 (the length): how many units a bytes/str needs.
+\* Used by the sizing pass (get_new_array_length) AND by the bound check of the write pass.
+FirstPair(v) == IF v = "pair-above-10000" THEN 65537 ELSE 65536
+SizeAsUnits(v, cps, w) ==
+  IF w = 2 THEN Len(cps) + Cardinality({i \in 1..Len(cps) : cps[i] >= FirstPair(v)}) ELSE Len(cps)
+\* _my_PyUnicode_AsChar16 (:124): one unit, or 0xD800 | (c >> 10), 0xDC00 | (c & 0x3FF) of c = ordinal - 0x10000;
+\* it writes every character whatever the count above said.  Width 4: PyUnicode_AsUCS4; width 1: the bytes.
+RECURSIVE AsUnits(_, _)
+AsUnits(cps, w) ==
+  IF cps = <<>> THEN <<>>
+  ELSE LET c == Head(cps) IN
+       (IF w = 2 /\ c > 65535 THEN <<55296 + ((c - 65536) \div 1024), 56320 + ((c - 65536) % 1024)>> ELSE <<c>>)
+         \o AsUnits(Tail(cps), w)
+
 \* get_new_array_length: -1 = TypeError
 NewArrayLength(v, init) ==
   CASE init.k = "seq" -> Len(init.items)
-    [] init.k = "str" -> IF v = "noplus1" THEN Len(init.b) ELSE Len(init.b) + 1
+    [] init.k = "str" -> IF v = "noplus1" THEN SizeAsUnits(v, init.b, init.n) ELSE SizeAsUnits(v, init.b, init.n) + 1
     [] init.k = "len" -> init.n
     [] OTHER -> 0 - 1
 
@@ -73,12 +89,14 @@ ConvertDict(v, r, T, off, items, i) ==
   ELSE ConvertDict(v, ConvertVField(v, r, Field(T, items[i].name), off, items[i].v), T, off, items, i + 1)
 
 ConvertArrayStr(v, r, T, off, init) ==
-  LET n0 == Len(init.b) IN
+  LET n0 == SizeAsUnits(v, init.b, init.n) IN
   IF ~(T.item.k = "prim" /\ T.item.chr = 1 /\ T.item.size = init.n) THEN Fail(r, "TypeError")
   ELSE IF T.len >= 0 /\ n0 > T.len THEN Fail(r, "IndexError")
   ELSE LET n == IF n0 # T.len THEN n0 + 1 ELSE n0 IN
        IF init.n = 1 THEN WriteBytes(r, off, SubSeq(init.b \o <<0>>, 1, n))    \* memcpy(data, srcdata, n)
-       ELSE WriteBytes(r, off, UnitBytes(init.b, init.n))                     \* wide: no terminator written
+       ELSE \* wide: if (n != ct_length) memset(data + n * itemsize, 0, itemsize); then every character is written
+            LET r1 == IF n0 # T.len THEN WriteBytes(r, off + n0 * init.n, Zeros(init.n)) ELSE r
+            IN WriteBytes(r1, off, UnitBytes(AsUnits(init.b, init.n), init.n))
 
 ConvertFromObject(v, r, T, off, init) ==
   IF r.err # "" THEN r
